@@ -222,12 +222,39 @@ def Num.fresh : Num → Prim
 def Num.fallbackVr : Num → VR
   | .i32 _ => .SL | .u32 _ => .UL | .i16 _ => .SS | .u16 _ => .US | .f32 _ => .FL | .f64 _ => .FD
 
+/-- `empty_value_for_vr`: an empty value of the kind that holds the values of the VR (repaired
+behaviour, finding C13 `value-type-incompatible-with-vr`: pushed values are converted to that kind;
+the code as found created the value in the kind of the pushed number) -/
+def typedEmpty : VR → Prim
+  | .US | .OW => .u16 []
+  | .SS => .i16 []
+  | .UL | .OL => .u32 []
+  | .SL => .i32 []
+  | .UV | .OV => .u64 []
+  | .SV => .i64 []
+  | .FL | .OF => .f32 []
+  | .FD | .OD => .f64 []
+  | .AT => .tags []
+  | .OB | .UN | .SQ => .empty
+  | _ => .strs []
+
+/-- an emptied value takes the kind of its VR before it is extended -/
+def normEmpty (vr : VR) : Prim → Prim
+  | .empty => typedEmpty vr
+  | p => p
+
 /-- `extend_str([s])`; `none` = `IncompatibleStringType` -/
 def Prim.extendStr (s : Bytes) : Prim → Option Prim
   | .empty => some (.strs [s])
   | .strs l => some (.strs (l ++ [s]))
   | .str x => some (.strs [x, s])
   | _ => none
+
+/-- the value of an attribute created by `PushStr`, given the empty value of its VR's kind: a single
+string where the VR holds text or bytes, an error where it holds numbers -/
+def Prim.freshStr (s : Bytes) : Prim → Option Prim
+  | .strs _ | .empty => some (.str s)
+  | p => p.extendStr s
 
 /-- `extend_{i32,u32,i16,u16,f32,f64}([n])`; `none` = `IncompatibleNumberType` -/
 def Prim.extendNum (n : Num) : Prim → Option Prim
@@ -279,20 +306,26 @@ def setVrOf (nvr vr : VR) : Val → VR
   | .prim _ => nvr
   | _ => vr
 
-/-- `apply_push_*_impl`: remove the entry, extend, re-insert — or restore it and fail -/
-def pushImpl (dict : Nat → Option VR) (o : Obj) (tag : Nat) (ext : Prim → Option Prim)
-    (fresh : Prim) (fallback : VR) : Obj × Option Err :=
+/-- `apply_push_*_impl`: remove the entry, extend, re-insert — or restore it and fail; a missing
+attribute is created with a value of the kind of its VR (never under VR SQ) -/
+def pushImpl (dict : Nat → Option VR) (o : Obj) (tag : Nat) (ext mk : Prim → Option Prim)
+    (fallback : VR) : Obj × Option Err :=
   match o.get tag with
   | some (vr, v) =>
     let o' := o.erase tag
     match v with
     | .prim p =>
-      match ext p with
+      match ext (normEmpty vr p) with
       | some p' => (o'.set tag vr (.prim p'), none)
       | none => (o'.set tag vr (.prim p), some .modify)
     | .pix b f => (o'.set tag vr (.pix b f), some .incompatibleTypes)
     | .seq items => (o'.set tag vr (.seq items), some .incompatibleTypes)
-  | none => (o.set tag ((dict tag).getD fallback) (.prim fresh), none)
+  | none =>
+    let vr := (dict tag).getD fallback
+    if vr = .SQ then (o, some .incompatibleTypes)
+    else match mk (typedEmpty vr) with
+      | some p' => (o.set tag vr (.prim p'), none)
+      | none => (o, some .modify)
 
 /-- `apply_leaf` -/
 def applyLeaf (dict : Nat → Option VR) (o : Obj) (tag : Nat) (a : Action) : Obj × Option Err :=
@@ -312,8 +345,8 @@ def applyLeaf (dict : Nat → Option VR) (o : Obj) (tag : Nat) (a : Action) : Ob
   | .setStrIfMissing s => (if (o.get tag).isNone then changeValue dict o tag (.str s) else o, none)
   | .replace p => (if (o.get tag).isSome then changeValue dict o tag p else o, none)
   | .replaceStr s => (if (o.get tag).isSome then changeValue dict o tag (.str s) else o, none)
-  | .pushStr s => pushImpl dict o tag (Prim.extendStr s) (.str s) .UN
-  | .pushNum n => pushImpl dict o tag (Prim.extendNum n) n.fresh n.fallbackVr
+  | .pushStr s => pushImpl dict o tag (Prim.extendStr s) (Prim.freshStr s) .UN
+  | .pushNum n => pushImpl dict o tag (Prim.extendNum n) (Prim.extendNum n) n.fallbackVr
   | .truncate n =>
     (match o.get tag with
      | some (vr, v) => o.set tag (vrAfterUpdate vr v) (v.truncate n)
@@ -362,14 +395,20 @@ def resetSpec (dict : Nat → Option VR) (tag : Nat) (cur : Option (VR × Val)) 
   let vr := match cur with | some (vr, _) => vr | none => (dict tag).getD .UN
   some (vr, newValue vr p)
 
-/-- "append … as an additional value, creating the attribute if it does not exist yet"; a value
-that cannot be extended is an error and nothing changes -/
-def pushSpec (dict : Nat → Option VR) (tag : Nat) (cur : Option (VR × Val)) (ext : Prim → Option Prim)
-    (fresh : Prim) (fallback : VR) : Option (VR × Val) × Option Err :=
+/-- "append … as an additional value, creating the attribute if it does not exist yet": the
+value has the kind of the attribute's VR (an empty one takes it first); a value that cannot be
+extended, or a sequence attribute, is an error and nothing changes -/
+def pushSpec (dict : Nat → Option VR) (tag : Nat) (cur : Option (VR × Val)) (ext mk : Prim → Option Prim)
+    (fallback : VR) : Option (VR × Val) × Option Err :=
   match cur with
-  | none => (some ((dict tag).getD fallback, .prim fresh), none)
+  | none =>
+    let vr := (dict tag).getD fallback
+    if vr = .SQ then (none, some .incompatibleTypes)
+    else (match mk (typedEmpty vr) with
+      | some p' => (some (vr, .prim p'), none)
+      | none => (none, some .modify))
   | some (vr, .prim p) =>
-    (match ext p with
+    (match ext (normEmpty vr p) with
      | some p' => (some (vr, .prim p'), none)
      | none => (cur, some .modify))
   | some (_, _) => (cur, some .incompatibleTypes)
@@ -392,8 +431,8 @@ def leafSpec (dict : Nat → Option VR) (tag : Nat) (cur : Option (VR × Val)) (
   | .setStrIfMissing s => (if cur.isNone then reset (.str s) else cur, none)
   | .replace p => (if cur.isSome then reset p else cur, none)
   | .replaceStr s => (if cur.isSome then reset (.str s) else cur, none)
-  | .pushStr s => push (Prim.extendStr s) (.str s) .UN
-  | .pushNum n => push (Prim.extendNum n) n.fresh n.fallbackVr
+  | .pushStr s => push (Prim.extendStr s) (Prim.freshStr s) .UN
+  | .pushNum n => push (Prim.extendNum n) (Prim.extendNum n) n.fallbackVr
   | .truncate n =>                                            -- "Does nothing if the attribute does not exist"
     (cur.map fun (vr, v) => (vrAfterUpdate vr v, v.truncate n), none)
 
